@@ -286,7 +286,8 @@ def status_table_rule(A: Analysis, col: Collector, rule: str):
                 out.append((n, frozenset(e.value for e in n.comparators[0].elts if isinstance(e, ast.Constant))))
         return out
 
-    requeue_in_run = str_lists(run, lambda n: norm(n.left) == "done")
+    polled = {n.targets[0].id for n in walk_own(run.node) if isinstance(n, ast.Assign) and isinstance(n.targets[0], ast.Name) and "_poll_job" in norm(n.value)}
+    requeue_in_run = str_lists(run, lambda n: isinstance(n.left, ast.Name) and n.left.id in polled)
     returned = []
     for n, vals in str_lists(ver, lambda n: "status" in norm(n.left)):
         for p in parents(n):
@@ -371,7 +372,7 @@ def embedded_code_rule(A: Analysis, col: Collector, rule: str):
                 if idx < len(tup) and tup[idx] == "rerun":
                     col.ok(rule, f"SGE array script passes element {idx} ('rerun') of the task tuple as rerun", A.loc(n))
                 else:
-                    col.fail(rule, sge_run.qualname, f"embedded-rerun-index:{idx}->{tup[idx] if idx < len(tup) else '?'}", f"the SGE array script passes element {idx} of the task tuple {tup} as `rerun`; that element is `{tup[idx] if idx < len(tup) else '?'}`", A.loc(n))
+                    col.fail(rule, sge_run.qualname, f"embedded-rerun-index:{idx}-of-{len(tup)}:rerun-at-{tup.index('rerun') if 'rerun' in tup else '?'}", f"the SGE array script passes element {idx} of the task tuple {tup} as `rerun`; that element is `{tup[idx] if idx < len(tup) else '?'}`", A.loc(n))
 
 
 @prop(
